@@ -10,7 +10,11 @@ package pipeline
 // import fd).  Up to c14Chunk rules are registered as recording actions of one real processor
 // (newProcessor + AddActionPlugin):
 //   order 1: every event is pushed through processor.doActions; "Do invoked" is the observed decision;
-//   order 2: processor.isMatch(rule, event) is called directly, events in a seeded permutation.
+//   order 2: processor.isMatch(rule, event) is called directly, events in a seeded permutation;
+//   order 3: the chain ends with a harness-owned HOLDING action (ActionHold / ActionCollapse, like join):
+//            a run is opened, so that the processor has a busy action, and then every event (and a
+//            time-out event, which is not judged) goes through processor.doActions again: "Do invoked"
+//            of the recording actions must still be the decision for (rule, event) alone.
 
 import (
 	"bufio"
@@ -61,18 +65,35 @@ type c14Out struct {
 	Err string `json:"err,omitempty"`
 	R1  string `json:"r1,omitempty"`
 	R2  string `json:"r2,omitempty"`
+	R3  string `json:"r3,omitempty"` // Do invoked while another action of the processor is busy
 }
 
-// recording action: notes for which event its Do was invoked
+// recording action: notes for which event its Do was invoked (slot len(events) = "not judged")
 type c14Rec struct {
-	hits []bool
-	cur  *int
+	hits  [2][]bool // [0] order 1, [1] order 3
+	cur   *int
+	phase *int
 }
 
 func (a *c14Rec) Start(AnyConfig, *ActionPluginParams) {}
 func (a *c14Rec) Stop()                                {}
 func (a *c14Rec) Do(*Event) ActionResult {
-	a.hits[*a.cur] = true
+	a.hits[*a.phase][*a.cur] = true
+	return ActionPass
+}
+
+// holding action (no selector): what join / join_template / k8s multi-line do to the processor
+type c14Holder struct{ mode *int } // 0 pass, 1 hold, 2 collapse
+
+func (a *c14Holder) Start(AnyConfig, *ActionPluginParams) {}
+func (a *c14Holder) Stop()                                {}
+func (a *c14Holder) Do(*Event) ActionResult {
+	switch *a.mode {
+	case 1:
+		return ActionHold
+	case 2:
+		return ActionCollapse
+	}
 	return ActionPass
 }
 
@@ -135,7 +156,8 @@ func c14Build(r *c14Rule, ext map[int]*c14Extract) (info *ActionPluginStaticInfo
 
 func c14RunChunk(rules []*c14Rule, ext map[int]*c14Extract, roots []*insaneJSON.Root, rng *rand.Rand, emit func(*c14Out)) {
 	p := newProcessor(0, nil, atomic.NewInt32(0), nil, nil, func(*Event, bool, bool) {}, func(...string) {}, func() {})
-	cur := 0
+	cur, phase, mode := 0, 0, 0
+	n := len(roots)
 	var live []*c14Rule
 	var recs []*c14Rec
 	for _, r := range rules {
@@ -144,7 +166,8 @@ func c14RunChunk(rules []*c14Rule, ext map[int]*c14Extract, roots []*insaneJSON.
 			emit(&c14Out{ID: r.ID, Err: err.Error()})
 			continue
 		}
-		rec := &c14Rec{hits: make([]bool, len(roots)), cur: &cur}
+		rec := &c14Rec{cur: &cur, phase: &phase}
+		rec.hits[0], rec.hits[1] = make([]bool, n+1), make([]bool, n+1)
 		p.AddActionPlugin(&ActionPluginInfo{
 			ActionPluginStaticInfo: info,
 			PluginRuntimeInfo:      &PluginRuntimeInfo{Plugin: rec, ID: "verif_c14"},
@@ -155,6 +178,12 @@ func c14RunChunk(rules []*c14Rule, ext map[int]*c14Extract, roots []*insaneJSON.
 	if len(live) == 0 {
 		return
 	}
+	// last in the chain: the holding action, selector-less as a plain join would be
+	holderIdx := len(live)
+	p.AddActionPlugin(&ActionPluginInfo{
+		ActionPluginStaticInfo: &ActionPluginStaticInfo{PluginStaticInfo: &PluginStaticInfo{Type: "verif_c14_hold"}},
+		PluginRuntimeInfo:      &PluginRuntimeInfo{Plugin: &c14Holder{mode: &mode}, ID: "verif_c14_hold"},
+	})
 	events := make([]*Event, len(roots))
 	for i, root := range roots {
 		events[i] = &Event{Root: root}
@@ -171,11 +200,51 @@ func c14RunChunk(rules []*c14Rule, ext map[int]*c14Extract, roots []*insaneJSON.
 			cur = i
 			ev.action = 0
 			passed, last := p.doActions(ev)
-			if !passed || last != len(live)-1 {
+			if !passed || last != holderIdx {
 				panic(fmt.Sprintf("harness: doActions returned (%v, %d)", passed, last))
 			}
 		}
 	}()
+	// order 3: the same chain while the holding action is busy
+	if chainErr == "" {
+		func() {
+			defer func() {
+				if pv := recover(); pv != nil {
+					chainErr = fmt.Sprintf("panic in doActions (busy chain) at event %d: %v", cur, pv)
+				}
+			}()
+			phase = 1
+			perm3 := rng.Perm(n)
+			send := func(ev *Event, slot, m int) {
+				cur, mode = slot, m
+				ev.action = 0
+				passed, last := p.doActions(ev)
+				if want := m == 0; passed != want || last != holderIdx {
+					panic(fmt.Sprintf("harness: busy chain: doActions returned (%v, %d) in mode %d", passed, last, m))
+				}
+			}
+			send(events[perm3[0]], n, 1) // opens the run; this evaluation (nothing busy yet) is not recorded
+			if p.busyActionsTotal != 1 || !p.busyActions[holderIdx] {
+				panic("harness: the holding action did not become busy")
+			}
+			for j, i := range perm3 {
+				if j == n/2 { // a time-out event: selectors are not judged for it, and it must not disturb what follows
+					tev := &Event{}
+					tev.SetTimeoutKind()
+					send(tev, n, 2)
+				}
+				send(events[i], i, 1+j%2)
+				if p.busyActionsTotal != 1 {
+					panic("harness: the holding action is no longer busy")
+				}
+			}
+			send(events[perm3[0]], n, 0) // closes the run
+			if p.busyActionsTotal != 0 {
+				panic("harness: busy actions left after the run was closed")
+			}
+			phase = 0
+		}()
+	}
 	// order 2: isMatch directly, rule by rule, events permuted
 	perm := make([]int, len(roots))
 	for i := range perm {
@@ -196,7 +265,7 @@ func c14RunChunk(rules []*c14Rule, ext map[int]*c14Extract, roots []*insaneJSON.
 			}
 		}()
 		if out.Err == "" {
-			out.R1, out.R2 = c14Bits(recs[k].hits), c14Bits(r2)
+			out.R1, out.R2, out.R3 = c14Bits(recs[k].hits[0][:n]), c14Bits(r2), c14Bits(recs[k].hits[1][:n])
 		}
 		emit(out)
 	}
